@@ -165,3 +165,110 @@ func verifBadTypeWhileUnreadable(t *testing.T, out *vfh.Out) {
 		}
 	}
 }
+
+// vfRunMidWrite (C06 / C07): the transmission of a scheduled multicast RA takes `lat` (a slow link, a
+// full queue), and a solicitation from the unspecified address arrives `at` after that transmission
+// began — while it is still inside WriteTo.  The RA being written left before the solicitation
+// arrived, so it is no answer to it: a further multicast RA must begin within MIN_DELAY_BETWEEN_RAS
+// of the solicitation.
+//
+//	mwr lat at | answered
+func vfRunMidWrite(t *testing.T, out *vfh.Out, lat, at time.Duration) {
+	out.Pending(fmt.Sprintf("runMidWrite latency=%v at=%v", lat, at))
+	synctest.Test(t, func(t *testing.T) {
+		v := vfNewVfAdv(vfAdvConfig(200*time.Second, 600*time.Second, false, 1800*time.Second), false, nil)
+		// write 0 is the initial RA, write 1 the loop's first scheduled multicast RA (at 3 s)
+		v.conn.latency = func(n int, dst netip.Addr) time.Duration {
+			if n == 1 && dst == vfAllNodes {
+				return lat
+			}
+			return 0
+		}
+		ctx, cancel := context.WithCancel(context.Background())
+		v.conn.t0 = time.Now()
+		done := make(chan error, 1)
+		go func() { done <- v.a.Run(ctx) }()
+		synctest.Wait()
+		time.Sleep(3*time.Second + at)
+		trigger := time.Since(v.conn.t0)
+		ok := v.conn.deliver(vfRead{m: &ndp.RouterSolicitation{}, hop: 255, host: netip.IPv6Unspecified().WithZone("vf0")})
+		time.Sleep(lat + 4*time.Second)
+		synctest.Wait()
+		answered := false
+		for _, w := range v.conn.snapshot() {
+			if w.dst == vfAllNodes && w.begin >= trigger && w.begin <= trigger+minDelayBetweenRAs {
+				answered = true
+			}
+		}
+		cancel()
+		select {
+		case <-done:
+		case <-time.After(10 * time.Minute):
+		}
+		out.Line(new(vfh.Toks).S("mwr").I(int64(lat)).I(int64(at)).String(), new(vfh.Toks).B(ok && answered).String())
+		out.Flush()
+	})
+}
+
+// vfRunFlipBetweenAnswers (C04): host A's solicited RA is being written (slowly) when IPv6 forwarding is
+// switched off; host C solicits after that: C's answer is built from the state of ITS moment —
+// router lifetime 0 — whatever is still in flight for A.
+//
+//	bfw lat | lifetimeOfAnswerToC (ns; -1 = no answer)
+func vfRunFlipBetweenAnswers(t *testing.T, out *vfh.Out, lat time.Duration) {
+	out.Pending(fmt.Sprintf("runFlipBetweenAnswers latency=%v", lat))
+	synctest.Test(t, func(t *testing.T) {
+		v := vfNewVfAdv(vfAdvConfig(200*time.Second, 600*time.Second, false, 1800*time.Second), false, nil)
+		v.conn.latency = func(n int, dst netip.Addr) time.Duration {
+			if dst == vfHosts[1] {
+				return lat
+			}
+			return 0
+		}
+		ctx, cancel := context.WithCancel(context.Background())
+		v.conn.t0 = time.Now()
+		done := make(chan error, 1)
+		go func() { done <- v.a.Run(ctx) }()
+		synctest.Wait()
+		time.Sleep(5 * time.Second)
+		v.conn.deliver(vfRead{m: &ndp.RouterSolicitation{}, hop: 255, host: vfHosts[1].WithZone("vf0")})
+		time.Sleep(600 * time.Millisecond) // A's answer has been built and is inside WriteTo by now
+		synctest.Wait()
+		v.state.setForwarding(false)
+		v.conn.deliver(vfRead{m: &ndp.RouterSolicitation{}, hop: 255, host: vfHosts[2].WithZone("vf0")})
+		time.Sleep(lat + 2*time.Second)
+		synctest.Wait()
+		lt := int64(-1)
+		for _, w := range v.conn.snapshot() {
+			if w.dst == vfHosts[2] && w.ra != nil {
+				lt = int64(w.ra.RouterLifetime)
+			}
+		}
+		cancel()
+		select {
+		case <-done:
+		case <-time.After(10 * time.Minute):
+		}
+		out.Line(new(vfh.Toks).S("bfw").I(int64(lat)).String(), new(vfh.Toks).I(lt).String())
+		out.Flush()
+	})
+}
+
+func verifMidWrite(t *testing.T, r *vfh.Rand, out *vfh.Out) {
+	for _, lat := range []time.Duration{500 * time.Millisecond, 2 * time.Second, 2900 * time.Millisecond} {
+		vfRunMidWrite(t, out, lat, lat/2|1)
+	}
+	for i := vfh.N(6, 100); i > 0; i-- {
+		lat := time.Duration(r.Range(int64(100*time.Millisecond), int64(2900*time.Millisecond)))
+		vfRunMidWrite(t, out, lat, time.Duration(r.Range(1, int64(lat)))|1)
+	}
+}
+
+func verifFlipBetweenAnswers(t *testing.T, r *vfh.Rand, out *vfh.Out) {
+	for _, lat := range []time.Duration{time.Second, 3 * time.Second} {
+		vfRunFlipBetweenAnswers(t, out, lat)
+	}
+	for i := vfh.N(4, 60); i > 0; i-- {
+		vfRunFlipBetweenAnswers(t, out, time.Duration(r.Range(int64(700*time.Millisecond), int64(5*time.Second))))
+	}
+}
